@@ -137,6 +137,9 @@ pub struct Call {
     pub text: Option<String>,
     /// fixed harness buffer the text is placed in (address reuse is a decided event)
     pub slot: Option<u8>,
+    /// byte offset inside the slot (adjacent slices of one buffer are a decided event too)
+    #[serde(default)]
+    pub slot_off: usize,
     pub defines: Vec<DefineSpec>,
     pub hash_seed: u64,
     pub include_paths: Vec<String>,
@@ -156,6 +159,7 @@ impl Call {
             path: path.to_string(),
             text: None,
             slot: None,
+            slot_off: 0,
             defines: vec![],
             hash_seed: 0,
             include_paths: vec![],
@@ -334,6 +338,10 @@ impl Violation {
         let head = |s: &str| s.split(|c| c == '#' || c == ' ').next().unwrap_or("").to_string();
         let kind = if self.kind == "digest-mismatch" {
             format!("{}:{}/{}", self.kind, head(&self.expected), head(&self.observed))
+        } else if self.kind == "wrong-error-shape" {
+            // keep the outermost error constructor that was observed
+            let h: String = self.observed.trim_start_matches("ERR ").chars().take_while(|c| c.is_ascii_alphanumeric()).collect();
+            format!("{}:{}", self.kind, h)
         } else {
             self.kind.clone()
         };
